@@ -40,7 +40,10 @@ check('C06', 'exploration',
       'every op parent links, owner documents, child order and every derived view the statement names are '
       'compared. On top, a bounded EXHAUSTIVE part: every enabled sequence of 2 (quick) / 3 (thorough; 4 below 48 seeded '
       'two-op prefixes) concrete edit operations over a six-node pool (root, 2 elements, 2 equal text nodes, a two-child '
-      'fragment). Beyond that bound: sampling, not proof (lengths 1-5 get half of the seeded runs).',
+      'fragment). Beyond that bound: sampling, not proof (lengths 1-5 get half of the seeded runs). Also: setParent=False '
+      'containers (BORROW), detached fragments as receivers of every editing operation, and a parsed-tree part - catalogue, '
+      'block, corpus and random-bag documents go through the real parser and the finished tree must satisfy the same link '
+      'invariants, before and after its derived views (fullTitle, tocEntry, ...) are read.',
       'Trusted: the list model in sim/props/c06.py. Normal form: arguments are detached subtree roots or fresh '
       'fragments (the statement\'s premise), never an ancestor of the target; spent fragments are not reused; '
       'attribute fragments are installed as plasTeX.TeX does (fragment.parentNode = holder) and not edited '
@@ -57,7 +60,10 @@ check('C20', 'fault_enumeration',
       'sampled workload: every SimFS event of the .paux window x tear offsets (crash between truncate and write, '
       'mid-write at byte offsets, before close), every truncation point, single-bit flips, zero tails and seeded '
       'multi-bit flips of a saved file through the three readers (Context.restore, xr, Context.persist). Injected I/O errors '
-      '(ENOSPC/EIO/EACCES on the n-th open or write, short write included) are a further fault kind: the run must go on.',
+      '(ENOSPC/EIO/EACCES on the n-th open or write, short write included) are a further fault kind: the run must go on. '
+      'Further scenarios: label files in other directories (--paux-dirs, equal job names, damaged part files, names with blanks, '
+      'given on the command line or in a configuration file), a renderer selected by path, one object with two labels, a label '
+      'name shared by all documents, documents without labels, xr in each option form x every kind of labelled object.',
       'Trusted: the .paux content model in sim/props/c20.py; SimFS flushes what was written before the kill, so a '
       'crash leaves old content, new content or a strict prefix (power-loss reordering below write() is not '
       'modelled; plasTeX never fsyncs). After bit flips / zero tails only "never blocks" and "heals" are asserted '
@@ -74,8 +80,12 @@ check('C17', 'exploration',
       'toXML and every written file must agree up to generated identifiers (V1); after every completed job the '
       'tracked interpreter-wide parsing state must equal its pristine value in the categories the statement names (V2). The '
       'generator draws from every package that loads offline (84), 9 document classes, ~150 blocks (state writers/readers, 28 '
-      'environment families, 13 constructs left open at end of input) and per-job command-line extras. Two OPEN findings '
-      '(register values on shared classes; beamer\'s import-time patches of 31 shared classes) are reported as KNOWN-FINDING.',
+      'environment families, 15 constructs left open at end of input) and per-job command-line extras; 30 % of the histories are '
+      'macro-fuzz jobs (bags of synthesised invocations of 1105 Base.LaTeX / package macros); "programs" load user packages '
+      'through --packages-dirs; the plasTeX manual (18 input files) is processed before and after other documents. Enumerated '
+      'next to the seeded histories: writer/reader pairs per state family and per topic, every opener at end of input, every '
+      'command-line extra with/without, all ordered pairs of the corpus. Three OPEN findings (register values on shared classes; '
+      'beamer\'s import-time patches of 31 shared classes; the class-level column-type registry) are reported as KNOWN-FINDING.',
       'Trusted: the block catalogue of the document generator and the curated attribute-name list that decides which '
       'class attributes count as parsing state (switches, trackers, register values, class-level macro settings); other '
       'drifts are reported as probes (untracked_drift) and only V1 can see their effect. Jobs that raise are outside '
@@ -90,24 +100,29 @@ check('C13', 'exploration',
       'directory, empty template path; and the dirty directory left behind by E0 after another configuration of the same '
       'document and unrelated documents were processed in the same lifetime - and only the job\'s own writes (SimFS write '
       'log) are judged: exact expected partition of markers into files with document order and footnotes last, issued '
-      'names distinct and clean, names and marker->file map identical in all three settings.',
+      'names distinct and clean, names and marker->file map identical in all three settings. Renderers HTML5 (two themes), '
+      'XHTML and Text; parts, abstract, table of contents, appendix; footnote shapes (\\footnotetext with and without mark, '
+      'in quotes, identical texts); templates with explicit extensions, repeated static names, labels colliding with '
+      'template-formed names, and without a numbered fail-safe alternative (then the run must end with the generator\'s error).',
       'Trusted: the generator\'s marker/level bookkeeping (LaTeX nesting by level) and html.parser text extraction. Normal '
-      'form: the last alternative of every generated wildcard is the documented $num-only fail-safe; template literals '
-      'contain no bad-chars; a raw % in bad-chars is doubled on the command line (option values are %-interpolated). The '
+      'form: template literals contain no bad-chars other than an explicit .html extension; a raw % in bad-chars is doubled on the command line (option values are %-interpolated). The '
       'input x configuration product is sampled; what simulation adds is the run-independence / environment / dirty-directory dimension.',
       'deterministic simulation: three simulated process lifetimes per case (fork, exec with other hash seed and permuted listings, dirty-directory history), SimFS write-log oracle',
       'DESIGN.md 5.3')
 
 check('C09', 'exploration',
-      'From one multiset of events (numbered objects of 7 kinds with their labels, \\ref/\\pageref, dangling references) '
+      'From one multiset of events (numbered objects of 24 kinds - headings numbered, starred and beyond sec-num-depth, equations, '
+      'display rows, items, floats with the caption in or outside an inner environment, theorems sharing or nesting counters - '
+      'with their labels, \\ref/\\pageref, dangling references) '
       'a seeded scheduler produces P delivery orders (4 quick / 12 thorough): every reference is placed before, inside or '
       'after its target, several pending on one label. Each order is delivered over two transports (bare Context API with '
       'stub nodes; the schedule compiled to LaTeX and parsed by the real TeX). Per order: exact target identity, dangling '
       'references resolve to no object, identifiers distinct, nothing left pending; over the recorded history of all orders: '
-      'confluence (one resolution map, one printed number per reference).',
+      'confluence (one resolution map, one printed number per reference); printed numbers are compared with the generator\'s own '
+      'count. Enumerated: book / report documents with 11-21 chapters and an appendix.',
       'Trusted: generator bookkeeping of which marker carries which label. Normal form: unique labels, at most one per '
       'object, objects keep their relative order across orders (only reference positions move); references around (not '
-      'inside) display math. The printed-number clause is self-consistency with the target, not LaTeX numbering (C08, N/A). '
+      'inside) display math. '
       'Only ORDER is simulated here: no file, clock or process fault exists for this property.',
       'deterministic simulation: seeded delivery orders of label/reference events, confluence check over the recorded history, two transports',
       'DESIGN.md 5.4')
@@ -119,7 +134,11 @@ check('C04', 'exploration',
       '(depth, every name, catcode, switch and counter compared after every op) and the same history compiled to TeX source '
       'and parsed by the real TeX (textContent of probe markers, final stack depth). Declarations (\\small, \\itshape: frames '
       'that only the enclosing closer pops) and real command objects are part of the histories. On top, a bounded EXHAUSTIVE '
-      'part on the API transport: every sequence of 4 (quick) / 6 (thorough) operations over an 11-letter alphabet.',
+      'part on the API transport: every sequence of 4 (quick) / 6 (thorough) operations over a 12-letter alphabet. Enumerated '
+      'sweeps: a local definition / alias / catcode change inside the argument or body of every Base.LaTeX macro (catalogue, 166 '
+      'macros, dimension arguments in seven spellings); the locals sweep (74 macro classes that nest macro classes, four class '
+      'orders); user-defined and undefined environments; packages loaded inside groups; names that start undefined. Three OPEN '
+      'findings (\\global prefix; a declaration inside its own environment form) are reported as KNOWN-FINDING.',
       'Trusted: the ~60-line frame-stack model and the TeX-transport compiler. Normal form of the TeX transport (each rule keeps '
       'a lexer look-ahead artefact - C01/C05 matters - out of this check): \\catcode`\\@=N\\relax; every PROBE preceded by a '
       'one-letter marker; no catcode op inside an argument group; $ followed by a blank (no accidental $$). \\gdef writes the '
